@@ -233,6 +233,8 @@ type replica struct {
 	slot   *slot
 	tree   synctree.SyncTree
 	client *harnessClient
+	// onWrite is called (once) right before the next tree-storage write of this replica
+	onWrite func()
 }
 
 func newWorld(pool *slotPool, n int, present []bool) (*world, error) {
@@ -284,12 +286,52 @@ func newWorld(pool *slotPool, n int, present []bool) (*world, error) {
 	return w, nil
 }
 
+// hookSpaceStorage hands out tree storages whose writes can be observed by the harness: the
+// "context cancelled while the handler is writing" fate cancels the delivery context right before
+// the first storage write of the call.
+type hookSpaceStorage struct {
+	spacestorage.SpaceStorage
+	r *replica
+}
+
+func (h *hookSpaceStorage) wrap(st objecttree.Storage, err error) (objecttree.Storage, error) {
+	if err != nil {
+		return st, err
+	}
+	return &hookStorage{Storage: st, r: h.r}, nil
+}
+
+func (h *hookSpaceStorage) TreeStorage(ctx context.Context, id string) (objecttree.Storage, error) {
+	return h.wrap(h.SpaceStorage.TreeStorage(ctx, id))
+}
+
+func (h *hookSpaceStorage) CreateTreeStorage(ctx context.Context, payload treestorage.TreeStorageCreatePayload) (objecttree.Storage, error) {
+	return h.wrap(h.SpaceStorage.CreateTreeStorage(ctx, payload))
+}
+
+func (h *hookSpaceStorage) CreateStorageWithDeferredCreation(ctx context.Context, payload treestorage.TreeStorageCreatePayload) (objecttree.Storage, error) {
+	return h.wrap(h.SpaceStorage.CreateStorageWithDeferredCreation(ctx, payload))
+}
+
+type hookStorage struct {
+	objecttree.Storage
+	r *replica
+}
+
+func (h *hookStorage) AddAll(ctx context.Context, changes []objecttree.StorageChange, heads []string, commonSnapshot string) error {
+	if f := h.r.onWrite; f != nil {
+		h.r.onWrite = nil
+		f()
+	}
+	return h.Storage.AddAll(ctx, changes, heads, commonSnapshot)
+}
+
 func (r *replica) deps() synctree.BuildDeps {
 	return synctree.BuildDeps{
 		SpaceId:         r.w.pool.spaceId,
 		SyncClient:      r.client,
 		AclList:         r.slot.acl,
-		SpaceStorage:    r.slot.store,
+		SpaceStorage:    &hookSpaceStorage{SpaceStorage: r.slot.store, r: r},
 		OnClose:         func(id string) {},
 		SyncStatus:      syncstatus.NewNoOpSyncStatus(),
 		BuildObjectTree: objecttree.BuildObjectTree,
@@ -413,7 +455,17 @@ func (w *world) emit(from *replica, m *msg) {
 	if from.tree != nil {
 		if len(m.Path) > 0 {
 			cur := w.name(from.tree.Root().Id)
-			if m.Path[0] != cur || m.Path[len(m.Path)-1] != "c0" {
+			// the whole chain, read from the storage (not through SnapshotPath(), which is under test)
+			var chain []string
+			for id := from.tree.Root().Id; id != "" && len(chain) < 10000; {
+				chain = append(chain, w.name(id))
+				sc, gerr := from.tree.Storage().Get(bg, id)
+				if gerr != nil {
+					break
+				}
+				id = sc.SnapshotId
+			}
+			if m.Path[0] != cur || m.Path[len(m.Path)-1] != "c0" || strings.Join(m.Path, ",") != strings.Join(chain, ",") {
 				w.pathViolations = append(w.pathViolations,
 					fmt.Sprintf("%s sends %s to %s with snapshot path %v while its in-memory root is %s (heads=%v)",
 						from.name, m.Kind, m.To, m.Path, cur, m.Heads))
@@ -661,10 +713,23 @@ func (w *world) deliver(m *msg) (sr stepResult) {
 			sr = w.end(fmt.Errorf("panic: %v", r))
 		}
 	}()
-	return w.deliver0(m)
+	return w.deliver0(m, "")
 }
 
-func (w *world) deliver0(m *msg) stepResult {
+// deliverCancelled hands m to the real handler with a context that is dead: mode "before" =
+// cancelled before the call, "onwrite" = cancelled right before the handler's first storage write
+// (a stream that is closed / a deadline that passes while the message is being applied).
+func (w *world) deliverCancelled(m *msg, mode string) (sr stepResult) {
+	defer func() {
+		if r := recover(); r != nil {
+			w.panics = append(w.panics, fmt.Sprintf("%s panicked in the handler of %s (context cancelled %s): %v", m.To, m.key(), mode, r))
+			sr = w.end(fmt.Errorf("panic: %v", r))
+		}
+	}()
+	return w.deliver0(m, mode)
+}
+
+func (w *world) deliver0(m *msg, cancelMode string) stepResult {
 	w.begin()
 	dst := w.byName[m.To]
 	if dst == nil || dst.tree == nil {
@@ -672,6 +737,17 @@ func (w *world) deliver0(m *msg) stepResult {
 	}
 	w.touch(dst)
 	ctx := peer.CtxWithPeerId(bg, m.From)
+	if cancelMode != "" {
+		cctx, cancel := context.WithCancel(ctx)
+		defer cancel()
+		if cancelMode == "before" {
+			cancel()
+		} else {
+			dst.onWrite = cancel
+			defer func() { dst.onWrite = nil }()
+		}
+		ctx = cctx
+	}
 	var err error
 	switch m.Kind {
 	case kHeadUpdate:
